@@ -409,7 +409,7 @@ func (p *parser) parseFunctionAliases(params []ast.ParameterInfo, validate func(
 		errHandleWrapper := func(err ddperror.Error) { didError = true; p.errorHandler(err) }
 
 		scanAndValidate := func(t token.Token, negated bool) {
-			alias, err := scanner.ScanAlias(t, errHandleWrapper)
+			alias, err := p.scanAlias(t, errHandleWrapper)
 			if err != nil && didError {
 				return
 			}
@@ -1133,7 +1133,7 @@ func (p *parser) parseStructAliases(fieldsForValidation []*ast.VarDecl) (structA
 	for _, rawAlias := range rawAliases {
 		didError := false
 		errHandleWrapper := func(err ddperror.Error) { didError = true; p.errorHandler(err) }
-		if aliasTokens, err := scanner.ScanAlias(*rawAlias, errHandleWrapper); err == nil && !didError {
+		if aliasTokens, err := p.scanAlias(*rawAlias, errHandleWrapper); err == nil && !didError {
 			if len(aliasTokens) < 2 { // empty strings are not allowed (we need at leas 1 token + EOF)
 				p.err(ddperror.SEM_MALFORMED_ALIAS, rawAlias.Range, "Ein Alias muss mindestens 1 Symbol enthalten")
 			} else if err, args := p.validateStructAlias(aliasTokens, fieldsForValidation); err == nil {
@@ -1263,7 +1263,7 @@ func (p *parser) aliasDecl() ast.Statement {
 	// scan the raw alias withouth the ""
 	var alias *ast.FuncAlias
 	var pTokens []*token.Token
-	if aliasTokens, err := scanner.ScanAlias(*aliasTok, func(err ddperror.Error) { p.errVal(err) }); err == nil && len(aliasTokens) < 2 { // empty strings are not allowed (we need at leas 1 token + EOF)
+	if aliasTokens, err := p.scanAlias(*aliasTok, func(err ddperror.Error) { p.errVal(err) }); err == nil && len(aliasTokens) < 2 { // empty strings are not allowed (we need at leas 1 token + EOF)
 		p.err(ddperror.SEM_MALFORMED_ALIAS, aliasTok.Range, "Ein Alias muss mindestens 1 Symbol enthalten")
 	} else if err := p.validateFunctionAlias(aliasTokens, funDecl.Parameters); err == nil { // check that the alias fits the function
 		if ok, isFun, existingAlias, toks := p.aliasExists(aliasTokens); ok {
@@ -1298,4 +1298,13 @@ func containsName(params []ast.ParameterInfo, name string) bool {
 		}
 	}
 	return false
+}
+
+// scans the given alias and reports its errors in the file of the module that is being parsed
+// as the scanner itself does not know which file the alias comes from
+func (p *parser) scanAlias(alias token.Token, errorHandler ddperror.Handler) ([]token.Token, error) {
+	return scanner.ScanAlias(alias, func(err ddperror.Error) {
+		err.File = p.module.FileName
+		errorHandler(err)
+	})
 }
